@@ -175,6 +175,8 @@ DIRECTED_FORMULAS = [
   # reads through references of a column that may not exist (yet) / whose type changes: rows with a BLANK
   # reference see the target column's type default, or AttributeError while the column is missing
   '$R.N', 'list($L.N)', '[x.N for x in $L]', '$R.B', 'str($R.A) + "|" + str($R.B)', '$R.R.B',
+  # two hops whose MIDDLE hop is a set of records: record_set.RefCol.X (table.py _get_col_obj_subset)
+  'list($L.R.A)', 'list($L.R.B)', 'list(T.lookupRecords(A=$B).R.B)', 'list(U.lookupRecords(B=$A, order_by="-A").R.A)',
 ]
 
 
@@ -299,7 +301,8 @@ def shape_tour():
            'len(T.lookupRecords(A=$B))', 'T.lookupOne(A=$B).B', '[r.id for r in T.lookupRecords(C=CONTAINS("x"))]',
            '[r.id for r in T.lookupRecords(A=$A, order_by="-B")]', '[r.id for r in T.lookupRecords(A=$A, B=$B)]',
            'len(T.all)', 'PREVIOUS(rec, order_by="B").id', 'NEXT(rec, group_by="A", order_by="B").id',
-           'RANK(rec, order_by="B", order="desc")', 'list(T.lookupRecords(A=$A).L)', 'T.lookupOne(B=$A, sort_by="-A").R.A']
+           'RANK(rec, order_by="B", order="desc")', 'list(T.lookupRecords(A=$A).L)', 'T.lookupOne(B=$A, sort_by="-A").R.A',
+           'list($L.R.B)', 'list(T.lookupRecords(A=$B).R.A)']
   hist = [[['AddTable', 'T', cols]]]
   for i, f in enumerate(forms):
     hist.append([['AddColumn', 'T', 'S%d' % i, {'type': 'Any', 'isFormula': True, 'formula': f}]])
@@ -309,7 +312,60 @@ def shape_tour():
   hist.append([['CreateViewSection', 1, 0, 'record', [2], None]])
   hist.append([['AddColumn', 'T_summary_A', 'tot', {'type': 'Any', 'isFormula': True, 'formula': 'SUM($group.B)'}]])
   hist.append([['AddColumn', 'T_summary_A', 'refs', {'type': 'Any', 'isFormula': True, 'formula': 'list($group.L)'}]])
+  hist.append([['AddColumn', 'T_summary_A', 'far', {'type': 'Any', 'isFormula': True, 'formula': 'list($group.R.B)'}]])
   hist += [[['UpdateRecord', 'T', 1, {'A': 2}]], [['UpdateRecord', 'T', 2, {'R': 1, 'L': ['L', 4]}]],
            [['UpdateRecord', 'T', 3, {'B': 5, 'C': ['L', 'x']}]], [['AddRecord', 'T', None, {'A': 1, 'B': 0, 'R': 5}]],
            [['RemoveRecord', 'T', 4]], [['ModifyColumn', 'T', 'B', {'type': 'Numeric'}]]]
+  return hist
+
+
+TWOHOP_FORMULAS = [
+  'list($RL.R.X)', '[x for x in $RL.R.X]', 'sum(x or 0 for x in $RL.R.X)', 'list($RL.R.Y)',
+  'list(Mid.lookupRecords(K=$B).R.X)', 'sum(x or 0 for x in Mid.lookupRecords(K=$B, order_by="-A").R.X)',
+  'list(Mid.lookupRecords(K=$B).R.Y)', '[r.X for r in $RL.R]', 'list(Mid.lookupRecords(K=$B).R.R2.X)',
+  'len($RL.R)', 'list($RL.R.R2.Y)',
+]
+
+
+def twohop_history(rng):
+  """Three tables: Far (X, Y; R2: Ref:Far), Mid (R: Ref:Far, K, A), Form (RL: RefList:Mid, B) whose formulas go
+  through a SET of Mid records to fields of Far ($RL.R.X, Mid.lookupRecords(..).R.X), plus a summary of Mid by K with
+  list($group.R.X).  Row ids are arranged so that the formula rows (Form: ids from 21; summary: 1, 2, ...) do not
+  coincide with the Mid rows (ids 4..9) that refer to the edited Far rows.  Edits touch mostly the far-end fields."""
+  far = [{'id': 'X', 'type': 'Int', 'isFormula': False}, {'id': 'Y', 'type': 'Text', 'isFormula': False},
+         {'id': 'R2', 'type': 'Ref:Far', 'isFormula': False}]
+  mid = [{'id': 'R', 'type': 'Ref:Far', 'isFormula': False}, {'id': 'K', 'type': 'Int', 'isFormula': False},
+         {'id': 'A', 'type': 'Int', 'isFormula': False}]
+  form = [{'id': 'RL', 'type': 'RefList:Mid', 'isFormula': False}, {'id': 'B', 'type': 'Int', 'isFormula': False}]
+  hist = [[['AddTable', 'Far', far]], [['AddTable', 'Mid', mid]], [['AddTable', 'Form', form]]]
+  for i, f in enumerate(rng.sample(TWOHOP_FORMULAS, rng.randint(2, 4))):
+    hist.append([['AddColumn', 'Form', 'G%d' % i, {'type': 'Any', 'isFormula': True, 'formula': f}]])
+  nfar = rng.randint(3, 5)
+  hist.append([['BulkAddRecord', 'Far', [None] * nfar, {'X': [rng.randint(0, 9) for _ in range(nfar)],
+                                                        'Y': [rng.choice(['a', 'b', 'c']) for _ in range(nfar)],
+                                                        'R2': [rng.randint(0, nfar) for _ in range(nfar)]}]])
+  nmid = 9
+  hist.append([['BulkAddRecord', 'Mid', [None] * nmid, {'R': [rng.randint(1, nfar) for _ in range(nmid)],
+                                                        'K': [rng.randint(0, 2) for _ in range(nmid)],
+                                                        'A': [rng.randint(0, 5) for _ in range(nmid)]}]])
+  hist.append([['BulkRemoveRecord', 'Mid', [1, 2, 3]]])          # Mid rows are now 4..9
+  nform = rng.randint(2, 3)
+  ids = list(range(21, 21 + nform))
+  hist.append([['BulkAddRecord', 'Form', ids, {'B': [rng.randint(0, 2) for _ in ids],
+                                               'RL': [['L'] + rng.sample(range(4, 10), rng.randint(1, 3)) for _ in ids]}]])
+  if rng.random() < 0.7:                                          # summary of Mid by K (column ref of K found by name)
+    hist.append([['CreateViewSection', 2, 0, 'record', [7], None]])   # Far: 1-4, Mid: manualSort=5 R=6 K=7 A=8
+    hist.append([['AddColumn', 'Mid_summary_K', 'far', {'type': 'Any', 'isFormula': True,
+                                                        'formula': rng.choice(['list($group.R.X)', 'sum(x or 0 for x in $group.R.X)',
+                                                                               'list($group.R.Y)', 'list($group.R.R2.X)'])}]])
+  for _ in range(rng.randint(5, 10)):
+    k = rng.random()
+    if k < 0.7:                                                   # only the far-end field
+      hist.append([['UpdateRecord', 'Far', rng.randint(1, nfar), {rng.choice(['X', 'X', 'Y']): rng.choice([11, 12, 13, 'q', 0])}]])
+    elif k < 0.8:
+      hist.append([['UpdateRecord', 'Far', rng.randint(1, nfar), {'R2': rng.randint(0, nfar)}]])
+    elif k < 0.9:
+      hist.append([['UpdateRecord', 'Mid', rng.randint(4, 9), {'R': rng.randint(1, nfar)}]])
+    else:
+      hist.append([['UpdateRecord', 'Form', rng.choice(ids), {'RL': ['L'] + rng.sample(range(4, 10), rng.randint(1, 3))}]])
   return hist
